@@ -163,6 +163,96 @@ def h_ioworker(ctx, nmsgs, ncalls, plan):
     ctx.check('send buffer drained', len(w.send_buf) == 0)
 
 
+class ScriptSock:
+  """socket whose send() outcomes are a concrete script: an int = accept that many bytes, 'all', 'again' (EAGAIN)"""
+  def __init__(self, script):
+    self.script = list(script); self.accepted = []; self.calls = 0; self.by = []
+  def send(self, data, flags=0):
+    import threading
+    o = self.script.pop(0) if self.script else 'all'
+    self.calls += 1
+    if o == 'again': raise OSError(errno.EAGAIN, 'would block')
+    k = len(data) if o == 'all' else min(int(o), len(data))
+    self.accepted.append(bytes(data[:k]))
+    return k
+  def fileno(self): return 77
+  def close(self): pass
+  def shutdown(self, how=None): pass
+  def setblocking(self, b): pass
+  def getpeername(self): return ('10.0.0.1', 6633)
+  def getsockname(self): return ('10.0.0.2', 12345)
+
+
+def h_threads(ctx, script, nmsgs, bound):
+  """The cooperative thread calling Connection.send() and the DeferredSender thread running its real run() loop are two real threads run one
+  source statement of of_01.py at a time (props/ilv.py); the interleaving is chosen by solver variables, every schedule with <= bound preemptions
+  is explored.  RLock, select and the waker are models; socket outcomes follow a concrete script of short writes / EAGAIN."""
+  import gc, sys, io
+  from props import ilv
+  core = env.get_core()
+  of01 = ctx.pox('pox.openflow.of_01')
+  of01.PIPE_BUF = 8
+  gc.collect(); gc.disable()
+  names = ('send', 'run', '_sliceup', 'kill')
+  ctl = ilv.Controller(ctx, [of01.__file__], bound, line_filter=lambda frame, st: frame.f_code.co_name in names)
+  saved = (of01.DeferredSender.start, of01.select, of01.pox.lib.util.makePinger, getattr(of01, 'deferredSender', None))
+  problems = []
+  try:
+    of01.DeferredSender.start = lambda self: None
+    of01.pox.lib.util.makePinger = lambda: ilv.MPinger()
+    ds = of01.DeferredSender()
+    ds._lock = ilv.MRLock(ctl)
+    of01.deferredSender = ds
+    class Sel:
+      def select(self_, r, w, x, timeout=None):
+        w = list(w)
+        if w: return [p for p in r if p.flag], w, []          # the connection's socket is writable
+        ok = ctl.block(lambda: any(p.flag for p in r), timeout, 'select')
+        return ([p for p in r if p.flag], [], []) if ok else ([], [], [])
+      def __getattr__(self_, n):
+        import select as _s
+        return getattr(_s, n)
+    of01.select = Sel()
+    sock = ScriptSock(['all'])
+    con = of01.Connection(sock)                              # hello
+    sock.accepted = []; sock.script = list(script)
+    msgs = [bytes([0x41 + i] * (6 + 2 * i)) for i in range(nmsgs)]
+    def sender():
+      for m in msgs: con.send(m)
+    core.running = True
+    tds = ctl.spawn('ds', ds.run)
+    tmain = ctl.spawn('coop', sender); tmain.prio = 0
+    polls = [0]
+    def pending():
+      return len(b''.join(sock.accepted)) < sum(len(m) for m in msgs)
+    def on_stuck(timed):
+      if tmain.done and not pending(): return 'quit'
+      polls[0] += 1
+      if polls[0] == 1: problems.append('queued bytes are not written although every thread is blocked (only the 5 s select timeout would flush them)')
+      if polls[0] > 3: return 'quit'
+      return 'timeout' if timed else 'deadlock'
+    try:
+      ctl.run(None, on_stuck)
+    finally:
+      core.running = False
+      stuck = ctl.drain()
+      core.running = True
+    if stuck: problems.append('threads did not finish: %r' % stuck)
+    problems += ctl.problems
+    for t in ctl.threads:
+      if t.exc is not None: problems.append('thread %s raised %r' % (t.name, t.exc))
+  finally:
+    gc.enable()
+    of01.DeferredSender.start, of01.select, of01.pox.lib.util.makePinger = saved[:3]
+  if problems and not ctx.sym: print(problems)
+  got = b''.join(sock.accepted); exp = b''.join(msgs)
+  ctx.check('no deadlock, nothing left unflushed, no crash', not problems)
+  ctx.check('accepted bytes are a prefix of the queued stream', exp.startswith(got))
+  ctx.check('at quiescence everything was written, in order', got == exp)
+  if ctl.preemptions == bound: ctx.witness('bound-reached')
+  ctx.witness('done')
+
+
 def obligations(tier):
   thorough = tier != 'quick'
   cplans = ['ssf', 'sfs', 'sffs', 'ssfsf'] + (['sssff', 'sfsfsf', 'ssffs'] if thorough else [])
@@ -170,7 +260,12 @@ def obligations(tier):
   nc = 3 if not thorough else 4
   BOUNDS[tier] = dict(messages="up to 3 (8, 10, 12 symbolic bytes)", socket_calls_scripted=nc, outcome_per_call="accept k of n (k symbolic) | EAGAIN | fatal",
                       interleavings=dict(controller=cplans, ioworker=wplans), PIPE_BUF=8)
+  scripts = [[5], ['again'], [5, 2], [5, 'again', 3], [3, 'all', 4]]
+  tcases = [dict(script=sc, nmsgs=3, bound=(2 if thorough else 1)) for sc in scripts] + ([dict(script=[5], nmsgs=4, bound=2)] if thorough else [])
+  BOUNDS[tier]['threads'] = dict(socket_scripts=scripts, messages=3, preemptions=2 if thorough else 1, granularity='source statements of Connection.send / DeferredSender.send/run/_sliceup/kill')
   return [
+    Obligation('O3_threads', h_threads, tcases, witnesses=('done', 'bound-reached'), max_decisions=20000, mode='int', path_seconds=120,
+               desc='Connection.send (cooperative thread) against the real DeferredSender.run loop (its own thread), interleaved at statement granularity: stream preserved'),
     Obligation('O1_controller', h_controller, [dict(nmsgs=p.count('s'), ncalls=nc, plan=p) for p in cplans], witnesses=('fatal', 'clean'),
                max_decisions=20000, desc='Connection.send + DeferredSender: accepted stream == queued stream; no write after fatal error; one ConnectionDown'),
     Obligation('O2_ioworker', h_ioworker, [dict(nmsgs=sum(p.count(c) for c in 'sq'), ncalls=nc, plan=p) for p in wplans], witnesses=('fatal', 'clean'),
